@@ -294,6 +294,25 @@ impl Driver for ParseNoPanic {
         vec!["aborts (stack overflow) are observed by the supervisor process, panics by catch_unwind + hook"]
     }
     fn run(&self, c: &mut Case) -> Outcome {
+        // a tape that starts with "RAW\0" carries the input verbatim (artifacts of the
+        // byte-level libFuzzer target `parse_any` are replayed this way)
+        if c.t.remaining() >= 4 {
+            let mut probe = c.t.clone();
+            if probe.bytes(4) == b"RAW\0" {
+                let _ = c.t.bytes(4);
+                let n = c.t.remaining();
+                let input = c.t.bytes(n);
+                c.class("mut:raw_input_from_fuzzer");
+                c.note(|| format!("raw input ({} bytes): {}", input.len(), crate::tape::hex(&input[..input.len().min(400)])));
+                for (what, mm) in [("module", false), ("module", true), ("component", false), ("component", true)] {
+                    let r = if what == "module" { run_lib(|| wirm::Module::parse(&input, mm).is_ok()) } else { run_lib(|| wirm::Component::parse(&input, mm).is_ok()) };
+                    if let Err(p) = r {
+                        return fail(p.signature(), format!("{}::parse(_, {}) panicked at {}:{}: {}", what, mm, p.file, p.line, p.msg));
+                    }
+                }
+                return Outcome::Pass;
+            }
+        }
         let profile = Profile::from_tape(&mut c.t);
         let mut cfg = GenCfg::new(Kind::Static, profile);
         cfg.max_funcs = 3;
